@@ -633,6 +633,14 @@ impl<'a, S: Setup> G<'a, S> {
             return;
         };
         let first = self.push(Stmt::DecomposeBits(x, n), bits);
+        if n > need && chance(self.rng, 1, 3) {
+            // the same value decomposed again at a narrower width that still fits: the second
+            // decomposition carries its own range claim (x < 2^n2), which a perturbed input breaks
+            let n2 = (need + self.rng.random_range(0..2usize)).min(n - 1).max(1);
+            if let Some(bits2) = canonical_bits::<S>(&self.vals[x], n2) {
+                self.push(Stmt::DecomposeBits(x, n2), bits2);
+            }
+        }
         if chance(self.rng, 1, 3) {
             // re-pack a prefix of the bits
             let k = self.rng.random_range(1..=n);
